@@ -10,23 +10,674 @@ open Chess Chess.Spec Chess.Rays
 /-- the entry list `collect_moves` builds for the king -/
 def kingList (b : Board) : List Entry := b.kingLegals (!BB.none b.checkers) b.turn (ownMask b)
 
+namespace King
+
+/-! ### the home squares and the castling constants, as literal squares -/
+
+def kHome : Color → Sq | .white => 4 | .black => 60
+
+def rHome : Side → Color → Sq
+  | .king, .white => 7 | .queen, .white => 0 | .king, .black => 63 | .queen, .black => 56
+
+def rTo : Side → Color → Sq
+  | .king, .white => 5 | .queen, .white => 3 | .king, .black => 61 | .queen, .black => 59
+
+def cDest : Side → Color → Sq
+  | .king, .white => 6 | .queen, .white => 2 | .king, .black => 62 | .queen, .black => 58
+
+def cBetween : Side → Color → List Sq
+  | .king, .white => [5, 6] | .queen, .white => [1, 2, 3] | .king, .black => [61, 62] | .queen, .black => [57, 58, 59]
+
+def cSafe : Side → Color → List Sq
+  | .king, .white => [5, 6] | .queen, .white => [2, 3] | .king, .black => [61, 62] | .queen, .black => [58, 59]
+
+def cFiles : Side → BB | .king => Gen.Consts.kingsideCastleFiles | .queen => Gen.Consts.queensideCastleFiles
+
+def sFiles : Side → BB | .king => Gen.Consts.kingsideCastleSafeFiles | .queen => Gen.Consts.queensideCastleSafeFiles
+
+theorem kingHome_eq (c : Color) : Position.kingHome c = some (kHome c) := by cases c <;> decide
+
+theorem rookHome_eq (sd : Side) (c : Color) : Position.rookHome sd c = some (rHome sd c) := by
+  cases c <;> cases sd <;> decide
+
+theorem destSq_eq (sd : Side) (c : Color) :
+    Position.sqAt (match sd with | .king => 6 | .queen => 2) (Position.homeRank c) = some (cDest sd c) := by
+  cases c <;> cases sd <;> decide
+
+theorem rookTo_eq (sd : Side) (c : Color) :
+    Position.sqAt (match sd with | .king => 5 | .queen => 3) (Position.homeRank c) = some (rTo sd c) := by
+  cases c <;> cases sd <;> decide
+
+theorem toList_safe : ∀ (sd : Side) (c : Color), BB.toList (sFiles sd &&& Lookup.backrankBB c) = cSafe sd c := by
+  intro sd c; cases sd <;> cases c <;> decide +kernel
+
+theorem mem_tiles : ∀ (sd : Side) (c : Color) (u : Sq),
+    BB.mem (cFiles sd &&& Lookup.backrankBB c) u = (cBetween sd c).contains u := by
+  intro sd c; cases sd <;> cases c <;> decide +kernel
+
+theorem mem_tiles_dest : ∀ (sd : Side) (c : Color) (u : Sq),
+    BB.mem (cFiles sd &&& Lookup.backrankBB c &&& Gen.Consts.castleMoves) u = (u == cDest sd c) := by
+  intro sd c; cases sd <;> cases c <;> decide +kernel
+
+/-- the king steps that survive the `is_legal_king_position` filter -/
+def stepSet (b : Board) : BB :=
+  (BB.toList (Board.pseudoLegals .king (b.kingSq b.turn) b.turn b.raw.all (ownMask b))).foldl
+    (fun m d => if b.isLegalKingPosition d then m else BB.clear m d)
+    (Board.pseudoLegals .king (b.kingSq b.turn) b.turn b.raw.all (ownMask b))
+
+/-- one application of the `castle` closure of `king_legals` -/
+def castleStep (b : Board) (moves : BB) (sd : Side) : BB :=
+  if !Castle.contains b.castle sd b.turn then moves else
+    if BB.none (cFiles sd &&& Lookup.backrankBB b.turn &&& b.raw.all) then
+      if (BB.toList (sFiles sd &&& Lookup.backrankBB b.turn)).all (fun d => b.isLegalKingPosition d) then
+        moves ^^^ (cFiles sd &&& Lookup.backrankBB b.turn &&& Gen.Consts.castleMoves &&& ownMask b)
+      else moves
+    else moves
+
+def kingMovesBB (b : Board) : BB :=
+  if (!BB.none b.checkers) then stepSet b else castleStep b (castleStep b (stepSet b) .king) .queen
+
+theorem kingList_eq (b : Board) :
+    kingList b = if BB.none (kingMovesBB b) then [] else [⟨b.kingSq b.turn, kingMovesBB b, false⟩] := rfl
+
+theorem mem_foldl_clear (f : Sq → Bool) (l : List Sq) (acc : BB) (d : Sq) :
+    BB.mem (l.foldl (fun m d => if f d then m else BB.clear m d) acc) d =
+      (BB.mem acc d && (!l.contains d || f d)) := by
+  induction l generalizing acc with
+  | nil => simp
+  | cons a l ih =>
+    rw [List.foldl_cons, ih]
+    by_cases had : d = a
+    · subst had
+      cases hf : f d <;> simp
+    · have h2 : (d != a) = true := by simp [had]
+      cases hf : f a <;> simp [had, h2]
+
+theorem mem_stepSet (b : Board) (d : Sq) :
+    BB.mem (stepSet b) d = (kingAtt (b.kingSq b.turn) d && BB.mem (ownMask b) d && b.isLegalKingPosition d) := by
+  unfold stepSet
+  rw [mem_foldl_clear, AbsL.mem_pseudo_king, ← BB.mem_eq_contains_toList, AbsL.mem_pseudo_king]
+  cases kingAtt (b.kingSq b.turn) d <;> cases BB.mem (ownMask b) d <;> simp
+
+theorem exists_entry_iff (b : Board) (d : Sq) :
+    (∃ e ∈ kingList b, BB.mem e.moves d = true) ↔ BB.mem (kingMovesBB b) d = true := by
+  rw [kingList_eq]
+  split
+  · rename_i h
+    rw [BB.none_iff] at h
+    simp [h d]
+  · simp
+
+theorem none_tiles (b : Board) (sd : Side) :
+    BB.none (cFiles sd &&& Lookup.backrankBB b.turn &&& b.raw.all) =
+      (cBetween sd b.turn).all (fun u => !BB.mem b.raw.all u) := by
+  rw [Bool.eq_iff_iff, BB.none_iff, List.all_eq_true]
+  have key : ∀ u, BB.mem (cFiles sd &&& Lookup.backrankBB b.turn &&& b.raw.all) u =
+      ((cBetween sd b.turn).contains u && BB.mem b.raw.all u) := by
+    intro u
+    rw [BB.mem_and' (cFiles sd &&& Lookup.backrankBB b.turn), mem_tiles]
+  constructor
+  · intro h u hu
+    have := h u
+    rw [key, List.contains_iff_mem.2 hu] at this
+    simpa using this
+  · intro h u
+    rw [key]
+    by_cases hu : u ∈ cBetween sd b.turn
+    · have := h u hu
+      simp only [Bool.not_eq_true'] at this
+      rw [this, Bool.and_false]
+    · have : (cBetween sd b.turn).contains u = false := by
+        rw [Bool.eq_false_iff]; intro hc; exact hu (List.contains_iff_mem.1 hc)
+      rw [this, Bool.false_and]
+
+def enabled (b : Board) (sd : Side) : Bool :=
+  Castle.contains b.castle sd b.turn &&
+  (cBetween sd b.turn).all (fun u => !BB.mem b.raw.all u) &&
+  (cSafe sd b.turn).all (fun d => b.isLegalKingPosition d)
+
+theorem mem_castleStep (b : Board) (moves : BB) (sd : Side) (d : Sq) :
+    BB.mem (castleStep b moves sd) d =
+      (BB.mem moves d != (enabled b sd && (d == cDest sd b.turn) && BB.mem (ownMask b) d)) := by
+  unfold castleStep enabled
+  rw [none_tiles, toList_safe]
+  cases Castle.contains b.castle sd b.turn
+  · simp
+  cases (cBetween sd b.turn).all (fun u => !BB.mem b.raw.all u)
+  · simp
+  cases (cSafe sd b.turn).all (fun d => b.isLegalKingPosition d)
+  · simp
+  simp only [Bool.not_true, Bool.false_eq_true, if_false, if_true, BB.mem_xor', Bool.true_and]
+  rw [BB.mem_and', mem_tiles_dest]
+
+theorem mem_kingMovesBB (b : Board) (d : Sq) :
+    BB.mem (kingMovesBB b) d =
+      if (!BB.none b.checkers) then BB.mem (stepSet b) d else
+        ((BB.mem (stepSet b) d != (enabled b .king && (d == cDest .king b.turn) && BB.mem (ownMask b) d)) !=
+          (enabled b .queen && (d == cDest .queen b.turn) && BB.mem (ownMask b) d)) := by
+  unfold kingMovesBB
+  split
+  · rfl
+  · rw [mem_castleStep, mem_castleStep]
+
+theorem validate_castle (b : Board) (hv : b.validate = .ok ()) : b.validateCastleRights = .ok () := by
+  unfold Board.validate at hv
+  split at hv
+  · cases hv
+  · split at hv
+    · cases hv
+    · split at hv
+      · cases hv
+      · split at hv
+        · cases hv
+        · assumption
+
+theorem ite_err_ok {ε : Type} {c : Prop} [Decidable c] {e : ε} {x : Except ε Unit}
+    (h : (if c then Except.error e else x) = Except.ok ()) : ¬ c ∧ x = Except.ok () := by
+  by_cases hc : c
+  · rw [if_pos hc] at h; cases h
+  · rw [if_neg hc] at h; exact ⟨hc, h⟩
+
+theorem castle_squares (b : Board) (hv : b.validateCastleRights = .ok ()) (sd : Side) (c : Color)
+    (hr : Castle.contains b.castle sd c = true) :
+    b.raw.get (kHome c) = some (c, .king) ∧ b.raw.get (rHome sd c) = some (c, .rook) := by
+  unfold Board.validateCastleRights at hv
+  simp only [Castle.containsColor] at hv
+  obtain ⟨h1, hv⟩ := ite_err_ok hv
+  obtain ⟨h2, hv⟩ := ite_err_ok hv
+  obtain ⟨h3, hv⟩ := ite_err_ok hv
+  obtain ⟨h4, hv⟩ := ite_err_ok hv
+  obtain ⟨h5, hv⟩ := ite_err_ok hv
+  obtain ⟨h6, hv⟩ := ite_err_ok hv
+  cases sd <;> cases c <;> simp only [kHome, rHome] <;> simp_all
+
+end King
+open King
+
 /-- castling rights of a well-formed board: king and that rook on their home squares -/
 theorem wf_rights (b : Board) (h : b.WF = true) (sd : Side) (hr : Castle.contains b.castle sd b.turn = true) :
     Position.kingHome b.turn = some (b.kingSq b.turn) ∧
-    (∃ r, Position.rookHome sd b.turn = some r ∧ (abs b).pieceAt r = some (b.turn, .rook)) := sorry
+    (∃ r, Position.rookHome sd b.turn = some r ∧ (abs b).pieceAt r = some (b.turn, .rook)) := by
+  have hp := AbsL.wf_partition b h
+  have hk := AbsL.wf_hasKings b h
+  obtain ⟨h1, h2⟩ := castle_squares b (validate_castle b (AbsL.wf_validate b h)) sd b.turn hr
+  rw [AbsL.get_eq b hp] at h1 h2
+  refine ⟨?_, rHome sd b.turn, rookHome_eq sd b.turn, h2⟩
+  rw [kingHome_eq, AbsL.king_unique b hp hk b.turn _ h1]
+
+namespace King
+
+theorem enabled_home (b : Board) (h : b.WF = true) (sd : Side) (he : enabled b sd = true) :
+    b.kingSq b.turn = kHome b.turn := by
+  simp only [enabled, Bool.and_eq_true] at he
+  have := (wf_rights b h sd he.1.1).1
+  rw [kingHome_eq] at this
+  exact (Option.some.inj this).symm
+
+theorem not_step_dest (sd : Side) (c : Color) : kingAtt (kHome c) (cDest sd c) = false := by
+  cases sd <;> cases c <;> decide
+
+theorem castle_term_step (b : Board) (h : b.WF = true) (sd : Side) (d : Sq)
+    (hstep : kingAtt (b.kingSq b.turn) d = true) (x : Bool) :
+    (enabled b sd && (d == cDest sd b.turn) && x) = false := by
+  cases he : enabled b sd
+  · simp
+  · by_cases hd : d = cDest sd b.turn
+    · rw [enabled_home b h sd he, hd, not_step_dest] at hstep
+      cases hstep
+    · simp [hd]
+
+theorem mem_kingMoves_step (b : Board) (h : b.WF = true) (d : Sq)
+    (hstep : kingAtt (b.kingSq b.turn) d = true) :
+    BB.mem (kingMovesBB b) d = (BB.mem (ownMask b) d && b.isLegalKingPosition d) := by
+  rw [mem_kingMovesBB, castle_term_step b h _ d hstep, castle_term_step b h _ d hstep, mem_stepSet, hstep]
+  simp
+
+theorem safe_iff (b : Board) (h : b.WF = true) (d : Sq) (hne : b.kingSq b.turn ≠ d) :
+    b.isLegalKingPosition d = true ↔
+      ∀ q : Position, q.pieceAt = moveAt (abs b).pieceAt (b.kingSq b.turn) d (some (b.turn, .king)) →
+        q.attacked d b.turn.flip = false := by
+  rw [isLegalKingPosition_iff b (AbsL.wf_partition b h) (AbsL.wf_hasKings b h)]
+  constructor
+  · intro hn q hq
+    rw [Bool.eq_false_iff]
+    intro ha
+    exact hn ((attacked_after_king_move (abs b) _ d b.turn hne q hq).1 ha)
+  · intro hq hex
+    let q : Position := { abs b with pieceAt := moveAt (abs b).pieceAt (b.kingSq b.turn) d (some (b.turn, .king)) }
+    have h1 := hq q rfl
+    rw [(attacked_after_king_move (abs b) _ d b.turn hne q rfl).2 hex] at h1
+    cases h1
+
+theorem color_ne_flip (c c' : Color) (h : c' ≠ c) : c' = c.flip := by
+  cases c <;> cases c' <;> first | rfl | exact absurd rfl h
+
+theorem destOk_step (b : Board) (h : b.WF = true) (d : Sq) (hstep : kingAtt (b.kingSq b.turn) d = true) :
+    destOk (abs b) b.turn d = BB.mem (ownMask b) d := by
+  have hp := AbsL.wf_partition b h
+  have hk := AbsL.wf_hasKings b h
+  rw [mem_ownMask b hp d]
+  unfold destOk Position.colorAt
+  rcases hpa : (abs b).pieceAt d with _ | ⟨c', pc'⟩
+  · rfl
+  · by_cases hc : c' = b.turn
+    · subst hc; simp
+    · have hpc : pc' ≠ .king := by
+        rintro rfl
+        rw [color_ne_flip _ _ hc] at hpa
+        have := AbsL.king_unique b hp hk _ d hpa
+        rw [this, kingAtt_symm, no_adjacent_kings b h] at hstep
+        cases hstep
+      have e1 : (c' == b.turn) = false := beq_eq_false_iff_ne.2 hc
+      have e2 : (pc' == Piece.king) = false := beq_eq_false_iff_ne.2 hpc
+      simp [bne, e1, e2]
+
+end King
 
 /-- **king steps**: a step to `d` is generated iff it is legal -/
 theorem king_step_iff (b : Board) (h : b.WF = true) (d : Sq) (hstep : kingAtt (b.kingSq b.turn) d = true) :
-    (∃ e ∈ kingList b, BB.mem e.moves d = true) ↔ (abs b).legal ⟨b.kingSq b.turn, d, none⟩ = true := sorry
+    (∃ e ∈ kingList b, BB.mem e.moves d = true) ↔ (abs b).legal ⟨b.kingSq b.turn, d, none⟩ = true := by
+  have hp := AbsL.wf_partition b h
+  have hk := AbsL.wf_hasKings b h
+  have hne : b.kingSq b.turn ≠ d := by
+    rintro he
+    rw [← he, (self_att _).2.2.2.2.1] at hstep
+    cases hstep
+  rw [exists_entry_iff, mem_kingMoves_step b h d hstep,
+    legal_king_step_iff (abs b) ⟨b.kingSq b.turn, d, none⟩ (b.kingSq b.turn)
+      (AbsL.king_at b hp hk b.turn) (AbsL.kings_eq b hp hk b.turn) hstep]
+  show _ ↔ (_ ∧ destOk (abs b) b.turn d = true ∧ _)
+  rw [destOk_step b h d hstep, Bool.and_eq_true, safe_iff b h d hne]
+  exact ⟨fun ⟨h1, h2⟩ => ⟨rfl, h1, h2⟩, fun ⟨_, h1, h2⟩ => ⟨h1, h2⟩⟩
+
+namespace King
+
+theorem cDest_ne (c : Color) : cDest .king c ≠ cDest .queen c := by cases c <;> decide
+
+theorem cDest_mem (sd : Side) (c : Color) : cDest sd c ∈ cBetween sd c := by cases sd <;> cases c <;> decide
+
+theorem cDest_mem_safe (sd : Side) (c : Color) : cDest sd c ∈ cSafe sd c := by cases sd <;> cases c <;> decide
+
+theorem kHome_ne_dest (sd : Side) (c : Color) : kHome c ≠ cDest sd c := by cases sd <;> cases c <;> decide
+
+theorem enabled_mask (b : Board) (sd : Side) (he : enabled b sd = true) :
+    BB.mem (ownMask b) (cDest sd b.turn) = true := by
+  simp only [enabled, Bool.and_eq_true, List.all_eq_true, Bool.not_eq_true'] at he
+  have h1 := he.1.2 _ (cDest_mem sd b.turn)
+  rw [RawBoard.all, BB.mem_or', Bool.or_eq_false_iff] at h1
+  unfold ownMask
+  rw [BB.mem_and', BB.mem_not', BB.mem_full, Bool.and_true]
+  clear he
+  revert h1
+  generalize b.turn = c
+  intro h1
+  cases c <;> simp only [RawBoard.color, h1.1, h1.2, Bool.not_false]
+
+theorem mem_kingMoves_castle (b : Board) (sd : Side) (hk : b.kingSq b.turn = kHome b.turn) :
+    BB.mem (kingMovesBB b) (cDest sd b.turn) = (BB.none b.checkers && enabled b sd) := by
+  rw [mem_kingMovesBB, mem_stepSet, hk, not_step_dest]
+  cases hn : BB.none b.checkers
+  · simp
+  · simp only [Bool.not_true, Bool.false_eq_true, if_false, Bool.false_and, Bool.true_and]
+    cases sd
+    · have : (cDest .king b.turn == cDest .queen b.turn) = false := beq_eq_false_iff_ne.2 (cDest_ne _)
+      rw [this]
+      cases he : enabled b .king
+      · simp
+      · simp [enabled_mask b .king he]
+    · have : (cDest .queen b.turn == cDest .king b.turn) = false := beq_eq_false_iff_ne.2 (cDest_ne _).symm
+      rw [this]
+      cases he : enabled b .queen
+      · simp
+      · simp [enabled_mask b .queen he]
+
+theorem castleOk_iff (p : Position) (sd : Side) :
+    p.castleOk sd = (p.rights sd p.turn && (cBetween sd p.turn).all (fun s => !p.occupied s) &&
+      !p.inCheck p.turn && (cSafe sd p.turn).all (fun s => !p.attacked s p.turn.flip)) := by
+  obtain ⟨pa, t, r, e, hh, ff⟩ := p
+  cases t <;> cases sd <;> rfl
+
+theorem sliderOn_between (P : Sq → Option (Color × Piece)) (c : Color) (x t k : Sq)
+    (hk : k ∈ betweenList x t) : sliderOn P c x k = sliderOn P c x t := by
+  obtain ⟨h1, h2, _⟩ := mem_between_aligned x t k hk
+  unfold sliderOn aligned
+  rw [h1, h2]
+
+/-- when the side to move is not in check, lifting its king does not change whether a square is attacked -/
+theorem safe_of_not_check (b : Board) (h : b.WF = true) (hnc : (abs b).inCheck b.turn = false) (t : Sq) :
+    b.isLegalKingPosition t = true ↔ (abs b).attacked t b.turn.flip = false := by
+  have hp := AbsL.wf_partition b h
+  have hk := AbsL.wf_hasKings b h
+  have hkat := AbsL.king_at b hp hk b.turn
+  have hcne : b.turn ≠ b.turn.flip := fun e => Color.flip_ne b.turn e.symm
+  rw [inCheck_single _ _ _ (AbsL.kings_eq b hp hk b.turn)] at hnc
+  rw [isLegalKingPosition_iff b hp hk]
+  constructor
+  · intro hn
+    rw [Bool.eq_false_iff]
+    intro ha
+    obtain ⟨x, hx⟩ := (attacked_iff _ _ _).1 ha
+    apply hn
+    have hxt : x ≠ t := by
+      rcases hx with hx | ⟨hx, _⟩
+      · exact contactOn_ne _ _ _ _ hx
+      · exact sliderOn_ne _ _ _ _ hx
+    have hxk : x ≠ b.kingSq b.turn := by
+      rintro rfl
+      rcases hx with hx | ⟨hx, _⟩
+      · rw [contactOn_other _ _ _ _ _ _ hkat hcne] at hx; cases hx
+      · rw [sliderOn_other _ _ _ _ _ _ hkat hcne] at hx; cases hx
+    refine ⟨x, hxt, hxk, ?_⟩
+    rcases hx with hx | ⟨hx, hcl⟩
+    · exact Or.inl hx
+    · refine Or.inr ⟨hx, fun u hu _ => ?_⟩
+      unfold clear at hcl
+      rw [List.all_eq_true] at hcl
+      simpa using hcl u hu
+  · rintro hna ⟨x, hxt, hxk, hc | ⟨hs, hcl⟩⟩
+    · rw [(attacked_iff _ _ _).2 ⟨x, Or.inl hc⟩] at hna; cases hna
+    · by_cases hkb : b.kingSq b.turn ∈ betweenList x t
+      · have hs' : sliderOn (abs b).pieceAt b.turn.flip x (b.kingSq b.turn) = true := by
+          rw [sliderOn_between _ _ _ _ _ hkb]; exact hs
+        have hcl' : clear (abs b).occupied x (b.kingSq b.turn) = true := by
+          unfold clear
+          rw [List.all_eq_true]
+          intro u hu
+          have hut : u ∈ betweenList x t := (between_split x t _ hkb u).2 (Or.inl hu)
+          have huk : u ≠ b.kingSq b.turn := fun e => (endpoints_not_mem x (b.kingSq b.turn)).2 (e ▸ hu)
+          rw [hcl u hut huk]; rfl
+        rw [(attacked_iff _ _ _).2 ⟨x, Or.inr ⟨hs', hcl'⟩⟩] at hnc; cases hnc
+      · have hcl' : clear (abs b).occupied x t = true := by
+          unfold clear
+          rw [List.all_eq_true]
+          intro u hu
+          have huk : u ≠ b.kingSq b.turn := fun e => hkb (e ▸ hu)
+          rw [hcl u hu huk]; rfl
+        rw [(attacked_iff _ _ _).2 ⟨x, Or.inr ⟨hs, hcl'⟩⟩] at hna; cases hna
+
+theorem geo1 : ∀ (sd : Side) (c : Color) (x : Sq),
+    kHome c ∈ betweenList x (cDest sd c) → rTo sd c ∈ betweenList x (cDest sd c) := by
+  intro sd c; cases sd <;> cases c <;> decide +kernel
+
+theorem geo2 : ∀ (sd : Side) (c : Color) (x : Sq), rHome sd c ∉ betweenList x (cDest sd c) := by
+  intro sd c; cases sd <;> cases c <;> decide +kernel
+
+/-- after castling, an attack on the king's arrival square was already there before -/
+theorem castle_after (p q : Position) (sd : Side) (c : Color)
+    (hq : ∀ x, q.pieceAt x = if x = cDest sd c then some (c, .king) else if x = kHome c then none
+      else if x = rHome sd c then none else if x = rTo sd c then some (c, .rook) else p.pieceAt x)
+    (ha : q.attacked (cDest sd c) c.flip = true) : p.attacked (cDest sd c) c.flip = true := by
+  have hcne : c ≠ c.flip := fun e => Color.flip_ne c e.symm
+  rw [attacked_iff] at ha ⊢
+  obtain ⟨x, hx⟩ := ha
+  have hD : q.pieceAt (cDest sd c) = some (c, .king) := by rw [hq, if_pos rfl]
+  have hRT : rTo sd c ≠ cDest sd c → rTo sd c ≠ kHome c → rTo sd c ≠ rHome sd c →
+      q.pieceAt (rTo sd c) = some (c, .rook) := by
+    intro h1 h2 h3
+    rw [hq, if_neg h1, if_neg h2, if_neg h3, if_pos rfl]
+  have hne1 : rTo sd c ≠ cDest sd c := by cases sd <;> cases c <;> decide
+  have hne2 : rTo sd c ≠ kHome c := by cases sd <;> cases c <;> decide
+  have hne3 : rTo sd c ≠ rHome sd c := by cases sd <;> cases c <;> decide
+  have hRT' := hRT hne1 hne2 hne3
+  have key : ∀ y, (contactOn q.pieceAt c.flip y (cDest sd c) = true ∨ sliderOn q.pieceAt c.flip y (cDest sd c) = true) →
+      y ≠ cDest sd c ∧ y ≠ kHome c ∧ y ≠ rHome sd c ∧ y ≠ rTo sd c := by
+    intro y hy
+    refine ⟨?_, ?_, ?_, ?_⟩
+    · rintro rfl
+      rw [contactOn_other _ _ _ _ _ _ hD hcne, sliderOn_other _ _ _ _ _ _ hD hcne] at hy
+      simp at hy
+    · rintro rfl
+      have : q.pieceAt (kHome c) = none := by rw [hq, if_neg (kHome_ne_dest sd c), if_pos rfl]
+      rw [contactOn_none _ _ _ _ this, sliderOn_none _ _ _ _ this] at hy
+      simp at hy
+    · rintro rfl
+      have e1 : rHome sd c ≠ cDest sd c := by cases sd <;> cases c <;> decide
+      have e2 : rHome sd c ≠ kHome c := by cases sd <;> cases c <;> decide
+      have : q.pieceAt (rHome sd c) = none := by rw [hq, if_neg e1, if_neg e2, if_pos rfl]
+      rw [contactOn_none _ _ _ _ this, sliderOn_none _ _ _ _ this] at hy
+      simp at hy
+    · rintro rfl
+      rw [contactOn_other _ _ _ _ _ _ hRT' hcne, sliderOn_other _ _ _ _ _ _ hRT' hcne] at hy
+      simp at hy
+  have hxx : q.pieceAt x = p.pieceAt x := by
+    obtain ⟨h1, h2, h3, h4⟩ := key x (by rcases hx with hx | ⟨hx, _⟩; exact Or.inl hx; exact Or.inr hx)
+    rw [hq, if_neg h1, if_neg h2, if_neg h3, if_neg h4]
+  refine ⟨x, ?_⟩
+  rw [← contactOn_congr _ _ _ _ _ hxx, ← sliderOn_congr _ _ _ _ _ hxx]
+  rcases hx with hx | ⟨hx, hcl⟩
+  · exact Or.inl hx
+  · refine Or.inr ⟨hx, ?_⟩
+    unfold clear at hcl ⊢
+    rw [List.all_eq_true] at hcl ⊢
+    intro u hu
+    have hqu := hcl u hu
+    have hocc : q.occupied (rTo sd c) = true := by unfold Position.occupied; rw [hRT']; rfl
+    have hu1 : u ≠ cDest sd c := fun e => (endpoints_not_mem x (cDest sd c)).2 (e ▸ hu)
+    have hu4 : u ≠ rTo sd c := by
+      rintro rfl
+      rw [hocc] at hqu; cases hqu
+    have hu2 : u ≠ kHome c := by
+      rintro rfl
+      have := hcl _ (geo1 sd c x hu)
+      rw [hocc] at this; cases this
+    have hu3 : u ≠ rHome sd c := by
+      rintro rfl
+      exact geo2 sd c x hu
+    have : q.pieceAt u = p.pieceAt u := by rw [hq, if_neg hu1, if_neg hu2, if_neg hu3, if_neg hu4]
+    unfold Position.occupied at hqu ⊢
+    rw [← this]; exact hqu
+
+/-- `pseudo` for a king of the side to move -/
+theorem pseudo_king (p : Position) (m : Move) (hsrc : p.pieceAt m.source = some (p.turn, .king)) :
+    p.pseudo m = if !destOk p p.turn m.dest then none else if m.piece.isSome then none
+      else if kingAtt m.source m.dest then some .normal
+      else match p.castleSide m with
+        | some sd => if p.castleOk sd then some (.castle sd) else none
+        | none => none := by
+  unfold Position.pseudo
+  rw [hsrc]
+  simp only [bne_self_eq_false, Bool.false_eq_true, if_false]
+  rfl
+
+theorem castleSide_eq (p : Position) (sd : Side)
+    (hk : p.pieceAt (kHome p.turn) = some (p.turn, .king)) :
+    p.castleSide ⟨kHome p.turn, cDest sd p.turn, none⟩ = some sd := by
+  unfold Position.castleSide
+  have h6 : Position.sqAt 6 (Position.homeRank p.turn) = some (cDest .king p.turn) := destSq_eq .king p.turn
+  have h2 : Position.sqAt 2 (Position.homeRank p.turn) = some (cDest .queen p.turn) := destSq_eq .queen p.turn
+  simp only [hk, kingHome_eq, h6, h2, BEq.rfl, Bool.and_self, if_true]
+  cases sd
+  · simp
+  · have : (some (cDest .queen p.turn) == some (cDest .king p.turn)) = false := by
+      rw [beq_eq_false_iff_ne]; intro e; exact cDest_ne _ (Option.some.inj e).symm
+    rw [this]; simp
+
+theorem legal_castle_eq (p : Position) (sd : Side)
+    (hk : p.pieceAt (kHome p.turn) = some (p.turn, .king)) :
+    p.legal ⟨kHome p.turn, cDest sd p.turn, none⟩ =
+      (p.castleOk sd && !(p.applyKind ⟨kHome p.turn, cDest sd p.turn, none⟩ (.castle sd)).inCheck p.turn) := by
+  unfold Position.legal
+  rw [pseudo_king p _ hk]
+  simp only [castleSide_eq p sd hk, not_step_dest, Option.isSome_none, Bool.false_eq_true, if_false]
+  cases hco : p.castleOk sd
+  · simp
+  · have hemp : p.pieceAt (cDest sd p.turn) = none := by
+      rw [castleOk_iff] at hco
+      simp only [Bool.and_eq_true, List.all_eq_true, Bool.not_eq_true'] at hco
+      exact (occupied_false_iff p _).1 (hco.1.1.2 _ (cDest_mem sd p.turn))
+    have : destOk p p.turn (cDest sd p.turn) = true := by unfold destOk; rw [hemp]
+    simp [this]
+
+end King
 
 /-- **castling**: the castling destination of side `sd` is generated iff castling that side is legal -/
 theorem castle_iff (b : Board) (h : b.WF = true) (sd : Side) (d : Sq)
     (hd : Position.sqAt (match sd with | .king => 6 | .queen => 2) (Position.homeRank b.turn) = some d)
     (hhome : Position.kingHome b.turn = some (b.kingSq b.turn)) :
-    (∃ e ∈ kingList b, BB.mem e.moves d = true) ↔ (abs b).legal ⟨b.kingSq b.turn, d, none⟩ = true := sorry
+    (∃ e ∈ kingList b, BB.mem e.moves d = true) ↔ (abs b).legal ⟨b.kingSq b.turn, d, none⟩ = true := by
+  have hp := AbsL.wf_partition b h
+  have hk := AbsL.wf_hasKings b h
+  have hkat := AbsL.king_at b hp hk b.turn
+  rw [destSq_eq] at hd
+  rw [kingHome_eq] at hhome
+  have hd' : d = cDest sd b.turn := (Option.some.inj hd).symm
+  have hk' : b.kingSq b.turn = kHome b.turn := (Option.some.inj hhome).symm
+  subst hd'
+  rw [exists_entry_iff, mem_kingMoves_castle b sd hk', hk']
+  rw [hk'] at hkat
+  have hturn : (abs b).turn = b.turn := rfl
+  have hleg := legal_castle_eq (abs b) sd hkat
+  rw [hturn] at hleg
+  rw [hleg]
+  have hchk : BB.none b.checkers = !(abs b).inCheck b.turn := by
+    rw [← inCheck_iff b h]; unfold Board.inCheck BB.any BB.none; simp [bne]
+  rw [hchk, castleOk_iff]
+  show _ ↔ ((Castle.contains b.castle sd b.turn && (cBetween sd b.turn).all (fun s => !(abs b).occupied s) &&
+      !(abs b).inCheck b.turn && (cSafe sd b.turn).all (fun s => !(abs b).attacked s b.turn.flip)) &&
+      !((abs b).applyKind ⟨kHome b.turn, cDest sd b.turn, none⟩ (.castle sd)).inCheck b.turn) = true
+  unfold enabled
+  cases hnc : (abs b).inCheck b.turn
+  case true => simp
+  cases hr : Castle.contains b.castle sd b.turn
+  case false => simp
+  have hbet : (cBetween sd b.turn).all (fun s => !(abs b).occupied s) =
+      (cBetween sd b.turn).all (fun u => !BB.mem b.raw.all u) := by
+    congr 1; funext s; rw [AbsL.occupied_iff b hp]
+  have hsafe : (cSafe sd b.turn).all (fun s => !(abs b).attacked s b.turn.flip) =
+      (cSafe sd b.turn).all (fun d => b.isLegalKingPosition d) := by
+    congr 1; funext s
+    rw [Bool.eq_iff_iff, safe_of_not_check b h hnc s, Bool.not_eq_true']
+  rw [hbet, hsafe]
+  cases hb : (cBetween sd b.turn).all (fun u => !BB.mem b.raw.all u)
+  case false => simp
+  cases hs : (cSafe sd b.turn).all (fun d => b.isLegalKingPosition d)
+  case false => simp
+  simp only [Bool.not_false, Bool.and_self, Bool.true_and, true_iff, Bool.not_eq_true']
+  -- the king is not attacked on its arrival square after castling
+  obtain ⟨_, r, hr1, hr2⟩ := wf_rights b h sd hr
+  rw [← hsafe, List.all_eq_true] at hs
+  have hsd := hs _ (cDest_mem_safe sd b.turn)
+  simp only [Bool.not_eq_true'] at hsd
+  have hq : ∀ x, ((abs b).applyKind ⟨kHome b.turn, cDest sd b.turn, none⟩ (.castle sd)).pieceAt x =
+      if x = cDest sd b.turn then some (b.turn, .king) else if x = kHome b.turn then none
+      else if x = rHome sd b.turn then none else if x = rTo sd b.turn then some (b.turn, .rook)
+      else (abs b).pieceAt x := by
+    intro x
+    rw [applyKind_castle_pieceAt (abs b) ⟨kHome b.turn, cDest sd b.turn, none⟩ sd (rHome sd b.turn)
+      (rTo sd b.turn) (rookHome_eq sd b.turn) (by cases sd; exact rookTo_eq .king b.turn; exact rookTo_eq .queen b.turn) x]
+    have : arriving (abs b) ⟨kHome b.turn, cDest sd b.turn, none⟩ = some (b.turn, .king) := by
+      unfold arriving; simp only [hkat]
+    rw [this]; rfl
+  have hkq : ((abs b).applyKind ⟨kHome b.turn, cDest sd b.turn, none⟩ (.castle sd)).kings b.turn = [cDest sd b.turn] := by
+    apply kings_after_king (abs b) _ b.turn (kHome b.turn) (cDest sd b.turn)
+      (hk' ▸ AbsL.kings_eq b hp hk b.turn) (kHome_ne_dest sd b.turn)
+    · intro x
+      by_cases h1 : x = cDest sd b.turn
+      · exact Or.inl h1
+      · by_cases h2 : x = kHome b.turn
+        · exact Or.inr (Or.inl h2)
+        · rw [hq x, if_neg h1, if_neg h2]
+          by_cases h3 : x = rHome sd b.turn
+          · rw [if_pos h3]; exact Or.inr (Or.inr (Or.inr (fun e => by cases e)))
+          · rw [if_neg h3]
+            by_cases h4 : x = rTo sd b.turn
+            · rw [if_pos h4]; exact Or.inr (Or.inr (Or.inr (fun e => by cases e)))
+            · rw [if_neg h4]; exact Or.inr (Or.inr (Or.inl rfl))
+    · rw [hq, if_pos rfl]
+    · rw [hq, if_neg (kHome_ne_dest sd b.turn), if_pos rfl]; exact fun e => by cases e
+  rw [inCheck_single _ _ _ hkq, Bool.eq_false_iff]
+  intro ha
+  rw [castle_after (abs b) _ sd b.turn hq ha] at hsd
+  cases hsd
+
+namespace King
+
+theorem castleSide_some (p : Position) (m : Move) (sd : Side) :
+    p.castleSide m = some sd → (Position.kingHome p.turn = some m.source ∧
+    Position.sqAt (match sd with | .king => 6 | .queen => 2) (Position.homeRank p.turn) = some m.dest) := by
+  intro h
+  unfold Position.castleSide at h
+  split at h
+  · rename_i h1
+    simp only [Bool.and_eq_true, beq_iff_eq] at h1
+    refine ⟨h1.2.symm, ?_⟩
+    split at h
+    · rename_i h2
+      cases h
+      exact (beq_iff_eq.1 h2).symm
+    · split at h
+      · rename_i h3
+        cases h
+        exact (beq_iff_eq.1 h3).symm
+      · cases h
+  · cases h
+
+theorem inEntries_iff (b : Board) (m : Move) :
+    InEntries (kingList b) m ↔
+      (m.source = b.kingSq b.turn ∧ BB.mem (kingMovesBB b) m.dest = true ∧ m.piece = none) := by
+  unfold InEntries
+  rw [kingList_eq]
+  split
+  · rename_i hn
+    rw [BB.none_iff] at hn
+    simp [hn m.dest]
+  · simp
+
+end King
 
 /-- **the king**: generated = legal -/
 theorem king_iff (b : Board) (h : b.WF = true) (m : Move) :
-    InEntries (kingList b) m ↔ ((abs b).pieceAt m.source = some (b.turn, .king) ∧ (abs b).legal m = true) := sorry
+    InEntries (kingList b) m ↔ ((abs b).pieceAt m.source = some (b.turn, .king) ∧ (abs b).legal m = true) := by
+  have hp := AbsL.wf_partition b h
+  have hk := AbsL.wf_hasKings b h
+  have hkat := AbsL.king_at b hp hk b.turn
+  obtain ⟨s, d, pr⟩ := m
+  rw [inEntries_iff]
+  show (s = b.kingSq b.turn ∧ BB.mem (kingMovesBB b) d = true ∧ pr = none) ↔
+    ((abs b).pieceAt s = some (b.turn, .king) ∧ (abs b).legal ⟨s, d, pr⟩ = true)
+  constructor
+  · rintro ⟨rfl, hmem, rfl⟩
+    refine ⟨hkat, ?_⟩
+    cases hstep : kingAtt (b.kingSq b.turn) d
+    · -- castling
+      have hor : (enabled b .king && (d == cDest .king b.turn) && BB.mem (ownMask b) d) = true ∨
+          (enabled b .queen && (d == cDest .queen b.turn) && BB.mem (ownMask b) d) = true := by
+        rw [mem_kingMovesBB, mem_stepSet, hstep] at hmem
+        split at hmem
+        · simp at hmem
+        · revert hmem
+          generalize (enabled b .king && (d == cDest .king b.turn) && BB.mem (ownMask b) d) = A
+          generalize (enabled b .queen && (d == cDest .queen b.turn) && BB.mem (ownMask b) d) = B
+          cases A <;> cases B <;> simp
+      have hex : ∃ sd, enabled b sd = true ∧ d = cDest sd b.turn := by
+        rcases hor with hA | hA
+        · simp only [Bool.and_eq_true, beq_iff_eq] at hA; exact ⟨.king, hA.1.1, hA.1.2⟩
+        · simp only [Bool.and_eq_true, beq_iff_eq] at hA; exact ⟨.queen, hA.1.1, hA.1.2⟩
+      obtain ⟨sd, he, rfl⟩ := hex
+      have hhome : Position.kingHome b.turn = some (b.kingSq b.turn) := by
+        rw [kingHome_eq, enabled_home b h sd he]
+      exact (castle_iff b h sd _ (destSq_eq sd b.turn) hhome).1 ((exists_entry_iff b _).2 hmem)
+    · exact (king_step_iff b h d hstep).1 ((exists_entry_iff b d).2 hmem)
+  · rintro ⟨hsrc, hleg⟩
+    have hs : s = b.kingSq b.turn := AbsL.king_unique b hp hk b.turn s hsrc
+    subst hs
+    have hleg0 := hleg
+    unfold Position.legal at hleg
+    rw [pseudo_king (abs b) _ hsrc] at hleg
+    dsimp only at hleg
+    cases hdo : destOk (abs b) (abs b).turn d
+    · rw [hdo] at hleg; simp at hleg
+    rw [hdo] at hleg
+    cases pr with
+    | some x => simp at hleg
+    | none =>
+      cases hstep : kingAtt (b.kingSq b.turn) d
+      · rw [hstep] at hleg
+        cases hcs : (abs b).castleSide ⟨b.kingSq b.turn, d, none⟩ with
+        | none => rw [hcs] at hleg; simp at hleg
+        | some sd =>
+          obtain ⟨h1, h2⟩ := castleSide_some _ _ _ hcs
+          exact ⟨rfl, (exists_entry_iff b d).1 ((castle_iff b h sd d h2 h1).2 hleg0), rfl⟩
+      · exact ⟨rfl, (exists_entry_iff b d).1 ((king_step_iff b h d hstep).2 hleg0), rfl⟩
 
 end Chess.Legal
